@@ -213,6 +213,37 @@ async fn rejected_after_rollover() -> Result<Option<String>, String> {
     Ok(None)
 }
 
+/// C02 / U23: an append whose write fails AFTER all its records were handed to the buffered writer (an I/O error in
+/// `flush_writer`, injected through the cfg-gated hook `verif_hooks::fail_next_flush_writer`) is rejected and truncated from the
+/// log: nothing of it may stay observable. [append A; append B (2 events) with the flush failing; append C with the expectation
+/// the model prescribes when B never happened; read back].
+async fn flush_fault_rejected_append() -> Result<Option<String>, String> {
+    let dir = tempfile::tempdir().map_err(|e| e.to_string())?;
+    let key = Uuid::from_u128(0x1234_5678_9abc_def0_1122_3344_5566_7788);
+    let hash = uuid_to_partition_hash(key);
+    let ev = |exp: ExpectedVersion| NewEvent { event_id: uuid_v7_with_partition_hash(hash), stream_id: StreamId::new("a").unwrap(), stream_version: exp, event_name: "e".into(), timestamp: 1, metadata: vec![], payload: vec![1, 2, 3] };
+    let db = { let mut b = DatabaseBuilder::new(); b.segment_size_bytes(128 * 1024).total_buckets(1).bucket_ids_from_range(0..1); b.open(dir.path()) }.map_err(|e| e.to_string())?;
+    let mut t1 = smallvec::SmallVec::<[NewEvent; 4]>::new(); t1.push(ev(ExpectedVersion::Empty));
+    db.append_events(Transaction::new(key, 0, t1).unwrap()).await.map_err(|e| e.to_string())?;
+    sierradb::writer_thread_pool::verif_hooks::fail_next_flush_writer();
+    let mut t2 = smallvec::SmallVec::<[NewEvent; 4]>::new(); t2.push(ev(ExpectedVersion::Exact(0))); t2.push(ev(ExpectedVersion::Exact(1)));
+    if db.append_events(Transaction::new(key, 0, t2).unwrap()).await.is_ok() { return Ok(None); } // the fault did not hit this append: not the scenario
+    // B was rejected: the stream still ends at version 0, the partition at sequence 0
+    let mut t3 = smallvec::SmallVec::<[NewEvent; 4]>::new(); t3.push(ev(ExpectedVersion::Exact(0)));
+    let r = match db.append_events(Transaction::new(key, 0, t3).unwrap().expected_partition_sequence(ExpectedVersion::Exact(0))).await {
+        Ok(r) => r,
+        Err(e) => return Ok(Some(format!("after a REJECTED two-event append (I/O error while flushing), an append expecting stream version 0 / partition sequence 0 (the state before the rejected append) was refused: {e}"))),
+    };
+    if r.first_partition_sequence != 1 || r.stream_versions.values().next().copied() != Some(1) { return Ok(Some(format!("the append after the rejected one got partition sequence {} / stream version {:?}, the model prescribes 1 / Some(1)", r.first_partition_sequence, r.stream_versions.values().next()))); }
+    let v = db.get_stream_version(0, &StreamId::new("a").unwrap()).await.map_err(|e| e.to_string())?;
+    let mut it = db.read_stream(0, StreamId::new("a").unwrap(), 0, IterDirection::Forward).await.map_err(|e| e.to_string())?;
+    let mut got = vec![];
+    loop { match it.next().await { Ok(Some(c)) => { for e in c.into_iter() { got.push(e.stream_version); } if got.len() > 20 { break; } } Ok(None) => break, Err(e) => return Ok(Some(format!("stream scan after the rejected append failed after versions {got:?}: {e}"))) } }
+    if got != vec![0, 1] { return Ok(Some(format!("stream scan after [A, rejected B, C] returned versions {got:?}, the model has [0, 1] (latest version query: {v:?})"))); }
+    db.shutdown().await;
+    Ok(None)
+}
+
 /// C05 / U20: a partition whose events live in TWO sealed segments and not in the live one (another partition's event rolled
 /// the segment over); after a reopen the next append to it must continue its sequence and its stream's version.
 async fn sequence_continues_after_reopen() -> Result<Option<String>, String> {
@@ -251,6 +282,11 @@ pub fn search(item: &str, seed: u64, _hint: &Value) -> Option<(Value, String)> {
     if item.contains("next_partition_sequence") || item.contains("latest_sequence") || item.contains("latest_version") {
         if let Ok(Ok(Some(d))) = guarded(|| block_on(sequence_continues_after_reopen())) {
             return Some((json!({"kind": "sequence_continues_after_reopen"}), format!("128 KiB segments: 14 events of 16 KiB to partition A (two segments), one event to partition B (third segment), close, reopen, append to A: {d}")));
+        }
+    }
+    if item.contains("handle_write") {
+        if let Ok(Ok(Some(d))) = guarded(|| block_on(flush_fault_rejected_append())) {
+            return Some((json!({"kind": "flush_fault_rejected_append"}), format!("[append A to stream a; append B (2 events) whose flush_writer fails with an injected I/O error => rejected; append C expecting the state before B]: {d}")));
         }
     }
     if item.contains("ack_handoff") || item.contains("rollover") {
@@ -294,6 +330,9 @@ pub fn run(_item: &str, input: &Value) -> Option<String> {
     }
     if input["kind"].as_str() == Some("sequence_continues_after_reopen") {
         return match guarded(|| block_on(sequence_continues_after_reopen())) { Ok(Ok(Some(d))) => Some(d), _ => None };
+    }
+    if input["kind"].as_str() == Some("flush_fault_rejected_append") {
+        return match guarded(|| block_on(flush_fault_rejected_append())) { Ok(Ok(Some(d))) => Some(d), _ => None };
     }
     if input["kind"].as_str() == Some("rejected_after_rollover") {
         return match guarded(|| block_on(rejected_after_rollover())) { Ok(Ok(Some(d))) => Some(d), _ => None };
